@@ -8,7 +8,7 @@ from typing import Any, Dict, List, Optional, Tuple
 
 import z3
 
-from . import symnum
+from . import robust, symnum
 from .symnum import explore, mk, real, term, var
 
 
@@ -98,7 +98,7 @@ def convert(src: Any, dst: Any, kind: str = "float", P: Optional[symnum.Prover] 
     s = z3.Solver()
     s.set("timeout", 10000)
     s.add(t != symnum.q(c) * m + symnum.q(d))
-    r = str(s.check())
+    r, _ = robust.check(s, 10000)
     out.queries += 1
     if r != "unsat":
         out.outcome = "nonlinear"
